@@ -1131,9 +1131,9 @@ def lexers_check(fns, table):
             else:
                 decided.add('one_line_comment')
                 if set(_lit(body[2][0])) != {ord('\n')}:
-                    report(f, ('runs-to-the-end-of-the-line', 'the comment text stops at %r instead of exactly at the newline' % bytes(sorted(set(_lit(body[2][0]))))))
+                    report(f, ('runs-to-the-end-of-the-line', 'the comment text stops at %r instead of exactly at the newline' % bytes(sorted(set(_lit(body[2][0]))))), props=('C06', 'C18', 'C10'))      # C10: a comment may share the line of an `include only if it owns the rest of that line
                 if _lit(nl[2][0]) != b'\n':
-                    report(f, ('takes-its-newline', 'the comment ends with %r instead of the newline' % _lit(nl[2][0])))
+                    report(f, ('takes-its-newline', 'the comment ends with %r instead of the newline' % _lit(nl[2][0])), props=('C06', 'C18', 'C10'))
     # ---- string literal
     f = table.get('string_literal_impl')
     if f is None or not f.ast:
